@@ -25,6 +25,12 @@
 (*           other negative numbers = any other outcome                    *)
 (*  allk/allv, mallk/mallv   what the two All() iterators yielded          *)
 (*  size     nametree.Size / numtree.Size (-1: error)                      *)
+(*  exits    early exits: [k, sk, sv, mk, mv, sp, mp] - All() of the        *)
+(*           streaming (s) / in-memory (m) reader consumed by a function   *)
+(*           that returns false from its k-th call on: everything it was   *)
+(*           called with (keys, values), incl. calls after the stop;       *)
+(*           sp/mp = 1 if a "for range" loop that breaks at its k-th       *)
+(*           iteration panicked                                            *)
 (*  mem      TRUE for api "InMemory"; then vallk/vallv = what t.All()      *)
 (*           yielded and vl = t.Lookup for every rank, just before the     *)
 (*           write (after the owner's edits of t.Data)                     *)
@@ -73,6 +79,20 @@ Build(nodes, i) ==
 Answers(c, ans) == /\ Len(ans) = Len(c.val)
                    /\ \A r \in 1..Len(ans) : ans[r] = c.val[r] \/ (c.sampled /\ ans[r] = -9)
 
+\* the ascending enumeration of the written map, and the early exits against it
+RefAllOf(c) == LET ks == SelectSeq([r \in 1..Len(c.val) |-> r], LAMBDA r : c.val[r] >= 0)
+               IN [i \in 1..Len(ks) |-> <<ks[i], c.val[ks[i]]>>]
+ExitOK(all, k, ks, vs, panicked) ==
+  /\ panicked = 0
+  /\ Len(ks) = Len(vs)
+  /\ Zip(ks, vs) = RefPrefix(all, k)       \* exactly the first k entries, nothing after the stop
+ExitParts(c) ==
+  LET all == RefAllOf(c)
+  IN (IF \A i \in 1..Len(c.exits) : LET e == c.exits[i] IN e.k >= 1 /\ ExitOK(all, e.k, e.sk, e.sv, e.sp)
+      THEN <<>> ELSE <<"EarlyExit">>)
+     \o (IF \A i \in 1..Len(c.exits) : LET e == c.exits[i] IN ExitOK(all, e.k, e.mk, e.mv, e.mp)
+         THEN <<>> ELSE <<"EarlyExitInMemory">>)
+
 \* the in-memory value itself shows the map
 ValueParts(c, mm) ==
   IF ~c.mem THEN <<>>
@@ -93,6 +113,7 @@ Parts(c) ==
         \o (IF c.rootnull /\ c.root = 0 THEN <<>> ELSE <<"EmptyNoTree">>)
         \o (IF Len(c.lk) = U /\ Len(c.ml) = U /\ \A r \in 1..U : c.lk[r] = -1 /\ c.ml[r] = -1 THEN <<>> ELSE <<"Faithful">>)
         \o (IF c.allk = <<>> /\ c.mallk = <<>> /\ c.size = 0 THEN <<>> ELSE <<"Enumerates">>)
+        \o ExitParts(c)
      ELSE IF c.rootnull \/ c.root = 0 THEN ValueParts(c, mm) \o <<"EmptyNoTree">>
      ELSE IF ~IsTree(c) THEN <<"Valid">>
      ELSE
@@ -108,6 +129,7 @@ Parts(c) ==
                /\ \A r \in 1..U : c.lk[r] = c.ml[r] \/ c.lk[r] = -9 \/ c.ml[r] = -9
                /\ c.allk = c.mallk /\ c.allv = c.mallv THEN <<>> ELSE <<"ReadersAgree">>)
         \o (IF c.size = n THEN <<>> ELSE <<"Size">>)
+        \o ExitParts(c)
 CaseOK(c) == Parts(c) = <<>>
 
 VARIABLES i, bad, why, done
